@@ -4,6 +4,7 @@ import I18n.Lemmas.MsgLive
 import I18n.Lemmas.MsgRangeCount
 import I18n.Lemmas.MsgRegex
 import I18n.Lemmas.MsgFormatDecl
+import I18n.Lemmas.MsgFileLevel
 /-
 C16 — message-level diagnostics match their documented conditions.
 
@@ -729,6 +730,22 @@ theorem format_flag_shape_live {f tp fmt : Str} (h : flagKind liveFlagEnv f = .f
   refine ⟨p, ?_, h1, h2, h3⟩
   have : liveFlagEnv.prefixes = [lit "no-", lit "possible-", lit "impossible-", []] := flag_syntax_pin.2.2.2.2.2.1
   rw [← this]; exact hp
+
+/-- FILE LEVEL (the clause as stated): some entry of the file gets `duplicate-message-definition` ⇔ two non-obsolete,
+    non-header entries of the file share msgid and msgctxt -/
+theorem duplicate_message_definition_file_iff (env : Env) (ctx : Ctx) (file : List Entry) :
+    (∃ pre e post, file = pre ++ e :: post ∧ has .duplicateMessageDefinition (entryTags env ctx pre e) = true) ↔
+      ∃ a m₁ b m₂ c, file = a ++ m₁ :: b ++ m₂ :: c ∧ isMessage m₁ = true ∧ isMessage m₂ = true ∧
+        m₁.msgid = m₂.msgid ∧ m₁.msgctxt = m₂.msgctxt := duplicate_reported_iff env ctx file
+
+/-- the unusual characters of a string, position by position (regenerated class): `c` is found iff it stands somewhere in the
+    string where the documented predicate holds of (character before, `c`, character after) -/
+theorem find_unusual_iff (xml : Str → XmlVerdict) (s : Str) (c : Nat) :
+    c ∈ (liveEnv xml).findUnusual s ↔
+      ∃ a b, s = a ++ c :: b ∧ documentedUnusual (inRanges Generated.StringFormats.wordRanges) a.getLast? c b.head? = true := by
+  have h := mem_findAllFrom_iff (inRanges Generated.StringFormats.wordRanges) Generated.StringFormats.unusualAlts s none c
+  simp only [Option.or_none, unusual_class_documented] at h
+  exact h
 
 /-! ## non-vacuity -/
 
